@@ -600,5 +600,5 @@ def run(ctx: Ctx, rep: Report, tier: str) -> None:
 
 
 # what the later rounds (seeding rounds 2-5, refactor twins, defect hunt) added to what the check decides
-LATER_ROUNDS = "no 'nothing to do' flag or repeated-value shortcut over nested state, attributes derived from settings are refreshed by every writer of those settings, no state shared through mutable defaults or class-level containers"
+LATER_ROUNDS = "no 'nothing to do' flag or repeated-value shortcut over nested state, attributes derived from settings are refreshed by every writer of those settings, no state shared through mutable defaults or class-level containers, no shared dict.fromkeys value that is changed afterwards"
 EXPLANATION = EXPLANATION.replace(" Does not decide", " Later rounds added: " + LATER_ROUNDS + ". Does not decide", 1) if " Does not decide" in EXPLANATION else EXPLANATION + " Later rounds added: " + LATER_ROUNDS + "."
